@@ -2,6 +2,7 @@ package rueidis
 
 import (
 	"bufio"
+	"bytes"
 	"errors"
 	"fmt"
 	"io"
@@ -11,6 +12,9 @@ import (
 	"sync"
 	"unsafe"
 )
+
+// maxPrealloc bounds how many bytes are allocated on the word of a length header alone.
+const maxPrealloc = 1 << 16
 
 var errChunked = errors.New("unbounded redis message")
 var errOldNull = errors.New("RESP2 null")
@@ -98,7 +102,10 @@ func readBlobString(i *bufio.Reader) (m RedisMessage, err error) {
 				m.setString(sb.String())
 				return m, nil
 			}
-			sb.Grow(int(length))
+			if length < 0 {
+				return RedisMessage{}, errors.New(unexpectedLength + strconv.FormatInt(length, 10))
+			}
+			sb.Grow(int(min(length, maxPrealloc))) // do not trust a large declared length before the data has arrived
 			if _, err = io.CopyN(&sb, i, length); err != nil {
 				return RedisMessage{}, err
 			}
@@ -148,6 +155,9 @@ func readArray(i *bufio.Reader) (m RedisMessage, err error) {
 func readMap(i *bufio.Reader) (m RedisMessage, err error) {
 	length, err := readI(i)
 	if err == nil {
+		if length > math.MaxInt64/2 {
+			return m, errors.New(unexpectedLength + strconv.FormatInt(length, 10))
+		}
 		m.array, m.intlen, err = readA(i, length*2)
 	} else if err == errChunked {
 		m.array, m.intlen, err = readE(i)
@@ -211,9 +221,21 @@ func readB(i *bufio.Reader) (*byte, int64, error) {
 	if length == -1 {
 		return nil, 0, errOldNull
 	}
-	bs := make([]byte, length)
-	if _, err = io.ReadFull(i, bs); err != nil {
-		return nil, 0, err
+	if length < 0 {
+		return nil, 0, errors.New(unexpectedLength + strconv.FormatInt(length, 10))
+	}
+	var bs []byte
+	if length > maxPrealloc { // do not trust a large declared length before the data has arrived
+		buf := bytes.NewBuffer(make([]byte, 0, maxPrealloc))
+		if _, err = io.CopyN(buf, i, length); err != nil {
+			return nil, 0, err
+		}
+		bs = buf.Bytes()
+	} else {
+		bs = make([]byte, length)
+		if _, err = io.ReadFull(i, bs); err != nil {
+			return nil, 0, err
+		}
 	}
 	if _, err = i.Discard(2); err != nil {
 		return nil, 0, err
@@ -236,13 +258,17 @@ func readE(i *bufio.Reader) (*RedisMessage, int64, error) {
 }
 
 func readA(i *bufio.Reader, length int64) (*RedisMessage, int64, error) {
-	var err error
-
-	msgs := make([]RedisMessage, length)
-	for n := range length {
-		if msgs[n], err = readNextMessage(i); err != nil {
+	if length < 0 {
+		return nil, 0, errors.New(unexpectedLength + strconv.FormatInt(length, 10))
+	}
+	// do not trust a large declared length before the elements have arrived
+	msgs := make([]RedisMessage, 0, min(length, maxPrealloc/int64(messageStructSize)))
+	for range length {
+		m, err := readNextMessage(i)
+		if err != nil {
 			return nil, 0, err
 		}
+		msgs = append(msgs, m)
 	}
 	return unsafe.SliceData(msgs), length, nil
 }
@@ -386,6 +412,7 @@ func flushCmd(o *bufio.Writer, cmd []string) (err error) {
 }
 
 const (
+	unexpectedLength   = "received unexpected message length: "
 	unexpectedNoCRLF   = "received unexpected simple string message ending without CRLF"
 	unexpectedNumByte  = "received unexpected number byte: "
 	unknownMessageType = "received unknown message type: "
